@@ -165,8 +165,19 @@ func (lineParser *LineParser) parseMarkup() (*ParseResult, error) {
 		}
 	}
 
+	// the attributes were positioned in the untrimmed text: move them along with it
+	text := builder.String()
+	trimmedText := strings.TrimSpace(text)
+	leading := utf8.RuneCountInString(text) - utf8.RuneCountInString(strings.TrimLeftFunc(text, unicode.IsSpace))
+	textLength := utf8.RuneCountInString(trimmedText)
+	for i := range attributes {
+		start := min(max(attributes[i].Position-leading, 0), textLength)
+		end := min(max(attributes[i].Position+attributes[i].Length-leading, start), textLength)
+		attributes[i].Position, attributes[i].Length = start, end-start
+	}
+
 	return &ParseResult{
-		Text:       strings.TrimSpace(builder.String()),
+		Text:       trimmedText,
 		Attributes: attributes,
 	}, nil
 }
